@@ -81,7 +81,9 @@ fn write_once(i: usize, b: usize, front: &str, input: &[u8]) -> Result<(usize, S
                     let _ = a.try_read_100(b"HTTP/1.1 099 Hold\r\n\r\n");
                     match a.proceed() {
                         Ok(ureq_proto::client::flow::Await100Result::SendBody(b)) => b,
-                        _ => panic!("harness: expected SendBody after a failed look"),
+                        // an implementation may take bytes that are no HTTP at all for "not a 100" and not ask for
+                        // the body: then this history does not lead to a body writer and there is nothing to check
+                        _ => return Ok((i, "history-does-not-reach-the-writer".to_string())),
                     }
                 }
                 _ => panic!("harness: expected Await100"),
